@@ -40,7 +40,7 @@ COMPONENTS = {"real": ["TunnelEndpoint (send, set_anonymity, set_tunnel_communit
 ASSUMPTIONS = ["while anonymity is switched off for a prefix its packets may use the raw socket (that is what the switch means)"]
 REACH = ["anon_send_no_circuit_queued", "anon_send_over_ready_circuit", "queue_overflow", "detached_drop", "plain_raw_ok",
          "circuit_closing_with_queue", "net_anon_delivered_via_exit", "net_hop_crashed", "wrong_circuit_not_used",
-         "second_endpoint_same_prefix", "net_blind_exit_circuit_ready", "service_with_statistics", "service_without_statistics"]
+         "second_endpoint_same_prefix", "net_blind_exit_circuit_ready", "service_with_statistics", "service_without_statistics", "anonymized_overlay_restarted"]
 
 ALPHA = "APRWCXDTNYQO"
 ANON_PREFIX = b"\x00\x02" + b"\xa1" * 20
@@ -80,8 +80,8 @@ def _net_case(seed: int) -> dict:
     ops = []
     for _ in range(rng.choice([6, 12, 30])):
         ops.append(rng.choices(["anon", "plain", "build", "wait", "remove", "crash_hop", "detach", "attach", "anon_off", "anon_on",
-                                "burst", "hops2", "hops1", "build_blind", "other_off", "other_send"],
-                               [30, 12, 8, 14, 8, 4, 4, 5, 3, 4, 3, 2, 3, 5, 3, 5])[0])
+                                "burst", "hops2", "hops1", "build_blind", "other_off", "other_send", "reload"],
+                               [30, 12, 8, 14, 8, 4, 4, 5, 3, 4, 3, 2, 3, 5, 3, 5, 4])[0])
     return {"scenario": "net", "seed": seed, "ops": ops,
             "knobs": {"lat_jit": rng.choice([0.0, 0.05]), "loss": rng.choice([0.0, 0.0, 0.1]), "timer_jitter": rng.choice([0.0, 0.001])}}
 
@@ -456,6 +456,18 @@ def run_net(c: Case, case: dict) -> dict:  # noqa: C901, PLR0915
                         await asyncio.sleep(1.0)
                         if circ.state == "READY" and not circ.exit_flags:
                             world.probe("net_blind_exit_circuit_ready")
+            elif op == "reload":
+                # the application restarts the anonymized overlay: the replacement (same overlay id, same endpoint, anonymity asked for
+                # again) is created while the old instance is still unloading
+                old = anon
+                old_task = me.call(asyncio.ensure_future, old.unload())
+                me.overlays.remove(old)
+                anon = me.add(AnonOverlay, CommunitySettings(anonymize=True))
+                world.probe("anonymized_overlay_restarted")
+                await asyncio.sleep(0.01)
+                pkt = me.call(anon.create_introduction_request, target.address)
+                me.call(anon.endpoint.send, target.address, pkt)
+                await old_task
             elif op == "other_off":
                 other.endpoint.set_anonymity(aprefix, False)
             elif op == "other_send":
